@@ -132,13 +132,20 @@ def run(ctx: vlib.Ctx):
         "the namespace of a program is fn.__globals__ of the function objects it defined (not the dict the builder keeps), snapshotted when the "
         "schema's build (or the call that compiled lazily) returns, and checked again at the end for every function reachable from the entry points; "
         "it only grows afterwards (setdefault never removes)",
+        "harness/c17_run.py program_world / program_assembly: extraction of the object model (which objects the chains touch, recorded imports via "
+        "run-time rebinding of CodeBuilder.ensure_object_imported / ensure_module_imported) and its serialisation into the shard files",
         "NsBind.clean_id models re.sub(r'\\W|^(?=\\d)', '_', s) for ASCII input only (compared with the implementation each run)",
     ]
     ctx.assumptions += [
         "quantification over schemas is by sampling (generated schemas of the stated grammar); for each captured program the closedness statement is "
         "proved for all inputs and all paths",
-        "closedness = no NameError/UnboundLocalError; AttributeError of the library's own making is covered by the checked holder-attribute inclusion "
-        "(Coq) and, for module/class attribute chains, by the oracle on the live namespaces (not by a theorem)",
+        "closedness = no NameError/UnboundLocalError and no AttributeError on a module / class / holder of the captured namespace: attribute chains rooted "
+        "at a global are resolved in the model against the captured objects (Closed.world: kind + attribute table per object, existence by real getattr when "
+        "the entry point becomes callable); chains rooted at a parameter/local are dynamic (input's business) and only covered by the attribute-name inclusion",
+        "stated exception: a generated attribute read by a lazy stub (def f: CodeBuilder(..).add_..(); return x.f(..)) that was never called is recorded as "
+        "installed by the preceding CodeBuilder call",
+        "identity binding per program is judged for the renderings the harness re-states independently (module.qualname chain, clean_id alias) of the schema "
+        "classes; an alias bound to the Annotated[...] form of the annotation or to the pre-slots original of a dataclass(slots=True) counts as that class",
     ]
 
     # ---- capture sanity
@@ -328,7 +335,7 @@ def coq_programs(ctx, programs, attr_cases, all_res):
                    f"{len(bad_programs)} rejected")
     ctx.obligation("holder attributes read are installed (attrs_closed = true per schema)", not bad_attrs, str(bad_attrs[:5]))
     ctx.correspondence("identity binding over the captured namespaces (inj_ok -> binding_ok, per program that mentions a schema class)", n_bind,
-                       len(bad_bind), f"programs outside the domain (two schema classes with one rendering): {n_notinj}")
+                       len(bad_bind), f"programs outside the domain of C17_binding (two schema classes with one rendering, or a root name the builder module already owns): {n_notinj}")
     ctx.obligation("binding_ok = true wherever renderings are injective (vm_compute, per shard)", not bad_bind,
                    "; ".join(f"{fam}/{idx}" for fam, idx, _ in bad_bind[:6]))
     ctx.correspondence("namespace assembly: setdefault model over the recorded imports vs fn.__globals__ (assembly_ok)", n_asm, len(bad_asm),
